@@ -682,3 +682,194 @@ pub fn c13_trl_recv_trailers() {
     std::mem::forget(r);
     rforget(w);
 }
+
+// ---------------------------------------------------------------------------
+// C07.resolve / C01: polls on an ended stream never hang and never report a clean end
+// after a reset that cut the message short
+// ---------------------------------------------------------------------------
+/// shape 6 EndStream, 7 Error(Reset), 8 ErrorAfterEndStream, 9 ScheduledLibraryReset,
+/// 10 Error(GoAway), 11 Error(Io); receive queue empty.
+fn resolve_polls(shape: u8, which: u8) {
+    let mut w = rworld(shape, false);
+    let wk = cw::waker(0);
+    let cx = Context::from_waker(&wk);
+    let complete = shape == 6 || shape == 8; // the peer's END_STREAM had been received
+    let mut p = w.store.resolve(w.key);
+    if which == 0 {
+        let r = w.recv.poll_data(&cx, &mut p);
+        match &r {
+            Poll::Pending => panic!("C07.resolve: poll_data would hang on an ended stream"),
+            Poll::Ready(None) => assert!(complete, "C01: clean end of body reported on a stream that was cut short"),
+            Poll::Ready(Some(Err(_))) => assert!(!complete, "a complete message must end cleanly"),
+            Poll::Ready(Some(Ok(_))) => panic!("data from an empty queue"),
+        }
+        std::mem::forget(r);
+    } else if which == 1 {
+        let r = w.recv.poll_trailers(&cx, &mut p);
+        match &r {
+            Poll::Pending => panic!("C07.resolve: poll_trailers would hang on an ended stream"),
+            Poll::Ready(None) => assert!(complete, "C01: clean end reported on a stream that was cut short"),
+            Poll::Ready(Some(Err(_))) => assert!(!complete),
+            Poll::Ready(Some(Ok(_))) => panic!("trailers from an empty queue"),
+        }
+        std::mem::forget(r);
+    } else if which == 2 {
+        let r = w.recv.poll_response(&cx, &mut p);
+        match &r {
+            Poll::Pending => panic!("C07.resolve: the response future would hang on an ended stream"),
+            Poll::Ready(Ok(_)) => panic!("response from an empty queue"),
+            Poll::Ready(Err(_)) => {}
+        }
+        std::mem::forget(r);
+    } else {
+        let r = w.recv.poll_pushed(&cx, &mut p);
+        match &r {
+            Poll::Pending => panic!("C07.resolve: poll_pushed would hang on an ended stream"),
+            Poll::Ready(None) => assert!(complete),
+            Poll::Ready(Some(Err(_))) => assert!(!complete),
+            Poll::Ready(Some(Ok(_))) => panic!("pushed request from nowhere"),
+        }
+        std::mem::forget(r);
+    }
+    kani::cover!(true, "end");
+    rforget(w);
+}
+pub fn c07_resolve_data_end() { resolve_polls(6, 0) }
+pub fn c07_resolve_data_reset() { resolve_polls(7, 0) }
+pub fn c07_resolve_data_reset_after_end() { resolve_polls(8, 0) }
+pub fn c07_resolve_data_scheduled() { resolve_polls(9, 0) }
+pub fn c07_resolve_data_goaway() { resolve_polls(10, 0) }
+pub fn c07_resolve_data_io() { resolve_polls(11, 0) }
+pub fn c07_resolve_trailers_reset() { resolve_polls(7, 1) }
+pub fn c07_resolve_trailers_io() { resolve_polls(11, 1) }
+pub fn c07_resolve_response_reset() { resolve_polls(7, 2) }
+pub fn c07_resolve_response_goaway() { resolve_polls(10, 2) }
+pub fn c07_resolve_response_io() { resolve_polls(11, 2) }
+pub fn c07_resolve_response_end() { resolve_polls(6, 2) }
+pub fn c07_resolve_pushed_goaway() { resolve_polls(10, 3) }
+
+/// live stream, empty queue: Pending, and the waker is stored (C06.recv)
+pub fn c06_recv_poll_data_registers_waker() {
+    let mut w = rworld(3, true);
+    let wk = cw::waker(0);
+    let cx = Context::from_waker(&wk);
+    let mut p = w.store.resolve(w.key);
+    let r = w.recv.poll_data(&cx, &mut p);
+    assert!(r.is_pending());
+    let w0 = cw::wakes(0);
+    p.notify_recv();
+    assert!(cw::wakes(0) == w0 + 1, "C06.recv: poll_data returned Pending without storing the waker");
+    kani::cover!(true, "end");
+    std::mem::forget(r);
+    rforget(w);
+}
+
+// ---------------------------------------------------------------------------
+// C18 quotas and C06.recv notifications: recv_reset, reset expiration, refusals
+// ---------------------------------------------------------------------------
+/// RST_STREAM from the peer on any live/closed stream: pending-accept quota, counters,
+/// all three wakers fire (C06.recv), state carries the code (C17.surface).
+pub fn c18_rreset_recv_reset() {
+    let mut w = rworld(3, false); // Open{local, remote} symbolic
+    let pending_accept: bool = kani::any();
+    let num: usize = kani::any();
+    let max: usize = kani::any();
+    kani::assume(num <= max); // N4
+    counts_h::set_reset_counts(&mut w.counts, 0, 10, num, max);
+    let code: u32 = kani::any();
+    let w0 = (cw::wakes(0), cw::wakes(1), cw::wakes(2));
+    let r = {
+        let mut p = w.store.resolve(w.key);
+        p.is_pending_accept = pending_accept;
+        let wk0 = cw::waker(0);
+        let c0 = Context::from_waker(&wk0);
+        p.wait_send(&c0);
+        p.recv_task = Some(cw::waker(1));
+        p.push_task = Some(cw::waker(2));
+        w.recv.recv_reset(frame::Reset::new(StreamId::from(ID), code.into()), &mut p, &mut w.counts)
+    };
+    let (_, nr) = counts_h::get_reset_counts(&w.counts);
+    let p = w.store.resolve(w.key);
+    match &r {
+        Ok(()) => {
+            assert!(p.state.is_remote_reset(), "stream not closed by the peer's RST_STREAM");
+            if pending_accept {
+                assert!(num < max && nr == num + 1, "C18.rreset: un-accepted reset stream not counted / counted beyond its quota");
+            } else {
+                assert!(nr == num);
+            }
+            assert!(nr <= max, "C18.rreset: more remembered remote resets than configured");
+            assert!(cw::wakes(0) == w0.0 + 1 && cw::wakes(1) == w0.1 + 1 && cw::wakes(2) == w0.2 + 1, "C06.recv: a waiter was not woken by the reset");
+        }
+        Err(e) => {
+            assert!(pending_accept && num >= max, "reset within the quota rejected");
+            assert!(matches!(e, Error::GoAway(_, Reason::ENHANCE_YOUR_CALM, Initiator::Library)), "quota overflow must be ENHANCE_YOUR_CALM");
+            assert!(nr == num);
+        }
+    }
+    kani::cover!(r.is_err(), "quota_exceeded");
+    kani::cover!(r.is_ok() && pending_accept, "counted");
+    kani::cover!(true, "end");
+    std::mem::forget(r);
+    rforget(w);
+}
+
+/// Locally reset streams are remembered only within `local_reset_max`.
+pub fn c18_lreset_enqueue_reset_expiration() {
+    let mut w = rworld(7, false);
+    let local: bool = kani::any();
+    {
+        let mut p = w.store.resolve(w.key);
+        p.state.set_reset(StreamId::from(ID), Reason::CANCEL, if local { Initiator::Library } else { Initiator::Remote });
+    }
+    let num: usize = kani::any();
+    let max: usize = kani::any();
+    kani::assume(num <= max);
+    counts_h::set_reset_counts(&mut w.counts, num, max, 0, 10);
+    {
+        let mut p = w.store.resolve(w.key);
+        w.recv.enqueue_reset_expiration(&mut p, &mut w.counts);
+    }
+    let (nl, _) = counts_h::get_reset_counts(&w.counts);
+    let p = w.store.resolve(w.key);
+    if local && num < max {
+        assert!(p.reset_at.is_some() && nl == num + 1, "locally reset stream not remembered although the quota allows it");
+        // second call: not counted twice
+        let mut p = w.store.resolve(w.key);
+        w.recv.enqueue_reset_expiration(&mut p, &mut w.counts);
+        assert!(counts_h::get_reset_counts(&w.counts).0 == num + 1, "reset memory counted twice for one stream");
+    } else {
+        assert!(p.reset_at.is_none() && nl == num, "C18.lreset: stream remembered beyond local_reset_max (or a peer reset remembered)");
+    }
+    assert!(counts_h::get_reset_counts(&w.counts).0 <= max, "C18.lreset: more remembered local resets than configured");
+    kani::cover!(local && num < max, "remembered");
+    kani::cover!(local && num >= max, "over_quota");
+    kani::cover!(true, "end");
+    rforget(w);
+}
+
+/// C05/C14/C18: the single REFUSED_STREAM slot is written exactly once and survives back-pressure.
+fn pending_refusal(blocked: bool) {
+    let c = cfg();
+    let mut recv = Recv::new(peer::Dyn::Server, &c);
+    let idv: u32 = kani::any();
+    kani::assume(idv >= 1 && idv <= 0x7fff_ffff);
+    set_refused(&mut recv, Some(StreamId::from(idv)));
+    let mut codec = mk_codec::<Prioritized<SymBuf>>(Mock::new([0; EXP], 0, 0));
+    codec_set_blocked(&mut codec, blocked);
+    let r = recv.send_pending_refusal(&mut codec);
+    if blocked {
+        assert!(matches!(r, Ok(BufferStatus::CodecFull)) && refused(&recv) == Some(StreamId::from(idv)), "owed REFUSED_STREAM lost under back-pressure");
+        assert!(codec_buffered(&codec).is_empty());
+    } else {
+        assert!(matches!(r, Ok(BufferStatus::Complete)) && refused(&recv).is_none());
+        let b = codec_buffered(&codec);
+        assert!(b.len() == 13 && b[2] == 4 && b[3] == 3 && b[4] == 0, "one RST_STREAM frame");
+        assert!(be32(&b[5..9]) == idv && be32(&b[9..13]) == 7, "RST_STREAM(REFUSED_STREAM) for the refused id");
+    }
+    kani::cover!(true, "end");
+    std::mem::forget(codec);
+    std::mem::forget(recv);
+}
+pub fn c05_refusal_sent() { pending_refusal(false) }
+pub fn c05_refusal_blocked() { pending_refusal(true) }
